@@ -1,5 +1,6 @@
 import PGV.Driver.Value
 import PGV.Spec.Size
+import PGV.Spec.Lang
 
 /-! Ops `struct`, `var`, `map`, `url`, `rule`: the validator entry points and single rule functions. -/
 
@@ -135,7 +136,8 @@ def mkResp (res : Except Stop (List CallOut)) (impl : Sexp) (spec : List CallOut
 /-- `(probe xCarrier xRule <value>)`: the single (rule, value) pair a case is about. Gives the
 verdict the property demands (`some true` = violated) and the scope tag. -/
 def probeSpec (carrier rule : Bytes) (v : GoVal) : Option Bool × String :=
-  let kfScope := if carrier == b! "map-iface" then "kf:F-C03-c" else "in"
+  let urlCut := carrier == b! "url" && (match v with | .str s => Bytes.hasByte s 38 || Bytes.hasByte s 61 | _ => false)
+  let kfScope := if carrier == b! "map-iface" then "kf:F-C03-c" else if urlCut then "kf:F-C18-a" else "in"
   match PGV.Spec.Size.readRule rule with
   | some _ =>
     match PGV.Spec.Size.violated rule v with
@@ -147,7 +149,16 @@ def probeSpec (carrier rule : Bytes) (v : GoVal) : Option Bool × String :=
     -- `required[|msg]`: violated exactly when the value is empty
     let key := match Bytes.indexByte? 124 rule with | some i => rule.take i | none => rule
     if key == requiredB then (some (requiredEmpty v), kfScope)
-    else (none, "out:no-spec-for-rule")
+    else
+      -- format / content rules on a non-empty string value: violated exactly when outside the documented language
+      match v with
+      | .str s =>
+        if s.isEmpty then (none, "out:format-rule-on-empty-value")
+        else if (PGV.Spec.pieces 44 false rule).length > 1 then (none, "out:rule-text-is-not-one-item")
+        else match PGV.Spec.Lang.accepts rule s with
+          | some ok => (some (!ok), kfScope)
+          | none => (none, "out:no-spec-for-rule")
+      | _ => (none, "out:no-spec-for-rule")
 
 def probe? : List Sexp → Option (Option (Bytes × Bytes × GoVal))
   | [] => some none
